@@ -29,6 +29,7 @@ import (
 	"runtime/pprof"
 	"strconv"
 	"sync"
+	"sync/atomic"
 	"time"
 
 	"verifharness/vh"
@@ -46,6 +47,7 @@ type event struct {
 	R [][]int `json:"r"`
 	C [][]int `json:"c"`
 	N []int   `json:"n"`
+	D []int   `json:"d"` // content of the receiver under the known deviation "dense operand" (vector arithmetic only)
 }
 type itObs struct {
 	Live bool  `json:"live"`
@@ -126,10 +128,19 @@ func checkReads(c cont, want []int, wantN int, hows []int) *mismatch {
 }
 
 // checkPrivate evaluates the mechanism-level invariants on the real private state.
+var statStoredZero, statIndexOver, statPrivate int64
+
 func checkPrivate(c cont) *mismatch {
 	p, ok := c.private()
 	if !ok {
 		return nil
+	}
+	atomic.AddInt64(&statPrivate, 1)
+	if len(p.Keys) > len(p.NonZero)+len(p.NilKeys) {
+		atomic.AddInt64(&statStoredZero, 1)
+	}
+	if len(p.Index) > len(p.Keys) {
+		atomic.AddInt64(&statIndexOver, 1)
 	}
 	if len(p.NilKeys) > 0 {
 		return &mismatch{what: "nil_placeholder", exp: "no placeholder cell in the value map", got: vh.M{"keys": p.NilKeys}}
@@ -283,6 +294,17 @@ func runCase(c *tcase, in inst, sh shape, caseNo int, operand string) (mm *misma
 				pending = &mismatch{what: "result", step: si, exp: e.R, got: res}
 				return
 			}
+			// known deviation (dense operand, another property's finding): the receiver may hold exactly e.D
+			if operand == "dense" && len(e.D) > 0 && len(e.D) == len(e.C[e.O-1]) && !eqInts(e.D, e.C[e.O-1]) {
+				same := o.dim() == len(e.D)
+				for i := 0; same && i < len(e.D); i++ {
+					same = o.read(i, 0) == float64(e.D[i])
+				}
+				if same {
+					pending = &mismatch{what: "dense_operand_joint_zero_stop", step: si, exp: e.C[e.O-1], got: e.D}
+					return
+				}
+			}
 			// frame + reads after every call (reads do not create entries)
 			for oi := 1; oi <= len(e.N); oi++ {
 				if e.N[oi-1] < 0 {
@@ -425,6 +447,7 @@ func replay(args []string) {
 	if len(args) > 2 {
 		operand = args[2]
 	}
+	allMat := os.Getenv("VERIF_ALLMAT") != "" // matrices with every element type on every case (replay of one stored case)
 	types := discoverTypes()
 	if len(types) == 0 {
 		vh.Fatal("no sparse vector types found")
@@ -439,6 +462,7 @@ func replay(args []string) {
 	var mu sync.Mutex
 	ncases, nruns, nskip, nsteps, nmis := 0, 0, 0, 0, 0
 	perKind := map[string]int{}
+	sigCount := map[string]int{}
 	opsSeen := map[string]int{}
 	var wg sync.WaitGroup
 	nw := runtime.NumCPU()
@@ -458,7 +482,14 @@ func replay(args []string) {
 				lruns, lskip, lmis := 0, 0, 0
 				lk := map[string]int{}
 				for _, sh := range shapesFor(c.N0) {
-					for _, in := range types {
+					for ti, in := range types {
+						// vectors: every element type on every case; matrices: the element type rotates with the case
+						if sh.kind == "matrix" && (!allMat && ti != (jb.no+sh.rows)%len(types)) {
+							continue
+						}
+						if operand == "dense" && sh.kind == "matrix" {
+							continue
+						}
 						wd.Begin(vh.M{"case": c, "type": in.Name, "kind": sh.kind})
 						m, skipped := runCase(&c, in, sh, jb.no, operand)
 						wd.End()
@@ -480,9 +511,17 @@ func replay(args []string) {
 							if operand != "sparse" {
 								sig["operand"] = operand
 							}
-							vh.Mismatch(out, sig, vh.M{"case": c, "step": m.step, "expected": m.exp, "observed": m.got,
-								"type": in.Name, "container": fmt.Sprintf("%s %dx%d", sh.kind, sh.rows, sh.cols),
-								"concrete_methods": jb.no%2 == 1, "case_no": jb.no, "operand": operand})
+							// at most 20 full records per signature, the rest is only counted
+							key := fmt.Sprint(op, m.what, kind, in.Class)
+							mu.Lock()
+							sigCount[key]++
+							full := sigCount[key] <= 20
+							mu.Unlock()
+							if full {
+								vh.Mismatch(out, sig, vh.M{"case": c, "step": m.step, "expected": m.exp, "observed": m.got,
+									"type": in.Name, "container": fmt.Sprintf("%s %dx%d", sh.kind, sh.rows, sh.cols),
+									"concrete_methods": jb.no%2 == 1, "case_no": jb.no, "operand": operand})
+							}
 						}
 					}
 				}
@@ -519,7 +558,9 @@ func replay(args []string) {
 		names = append(names, t.Name)
 	}
 	vh.Summary(out, vh.M{"cases": ncases, "runs": nruns, "skipped": nskip, "calls": nsteps, "mismatches": nmis,
-		"types": names, "per_kind": perKind, "last_ops": opsSeen})
+		"types": names, "per_kind": perKind, "last_ops": opsSeen, "operand": operand, "mismatches_per_signature": sigCount,
+		"private_states_checked": statPrivate, "states_with_stored_zero": statStoredZero,
+		"states_with_index_overapproximation": statIndexOver})
 }
 
 // ---------------------------------------------------------------- recorder
